@@ -604,3 +604,406 @@ Proof.
   destruct (C16_overwrite_reads_back_sd fs C16_sq.pth false C16_sq.d1 41%Z H0 H1 H2 ltac:(lia) (or_introl eq_refl)) as (txt & c' & W & Et & R).
   exists txt, c'. refine (conj W (conj _ R)). rewrite Et. vm_compute. reflexivity.
 Qed.
+
+(* ================================================================================================== *)
+(* added from Properties/C16_add.v (2026-10-01)                                              *)
+(* ================================================================================================== *)
+(* C16, continued: append mode onto a file WITH comments (line and block comments at any dict level).
+   Vocabulary (C03.v / C12.v, Proofs/RereadTree.v, RereadProofs.v): rereadable s (the class of SDicts with comment
+   placeholder entries), canon s (the data with every placeholder entry replaced by an id-free entry that carries the
+   comment text), written_doc s = hdr (canon s) (block comments first, the header in front), cwv c (leaves as the reader
+   classifies their written form), number count c (the SDict the reader returns for the text of the canonical document c),
+   cms t (the comment entries of a document in text order: dict level, name, text), cstrip t (the ordinary data).
+   From Proofs/AppendSeq.v: pv_ok / typed / classified (the source dict after DictWriter's parse_values pass / as the
+   reader classifies what is written for it), wdom (the writer domain of C01_roundtrip), writable_src, addable.
+   Model functions: SDict.sd_merge (SDict.merge), Reader.write_text / writer_run (DictWriter.write), Reader.read_plain
+   (DictReader.read, includes and comments on, as DictWriter itself reads the target in append mode). *)
+From Coq Require Import String.
+From Coq Require Import NArith ZArith List Bool Lia.
+From DictIO Require Import Chars Str Value Scalar KeyPath SDict Layout Lexer TokParser Reader TreeSpec NativeSpec LayoutSpec E2ESpec MiscSpec.
+From DictIO Require Import SDictProofs WriteProofs E2EFullProofs RereadPlain RereadTree RereadNum RereadProofs AppendSeq AppendCommented.
+Import ListNotations.
+Open Scope N_scope.
+
+(* The example: an SDict with the default header, a line comment at the top level, a nested dict with a line comment and
+   a two-line block comment, a trailing line comment; the text the library writes for it (file0); a source dict d that
+   tries to change the existing leaves a and sub.b, adds sub.z (written 007, read back as 7) inside the nested dict and c
+   at the top level; a second source dict d2 *)
+Module C16_cm.
+  Definition ph (w : str) (i : N) : key * tree := (KS (placeholder w i), Leaf (SStr (placeholder w i))).
+  Definition ks (s : string) : key := KS (of_string s).
+  Definition sv (s : string) : tree := Leaf (SStr (of_string s)).
+  Definition pth := of_string "/r/out.dict".
+  Definition s0 : sdict :=
+    mkSD [ ph w_BLOCKCOMMENT 0; ph w_LINECOMMENT 7;
+           (ks "a", Leaf (SInt 1));
+           (ks "sub", Dict [ph w_LINECOMMENT 2; (ks "b", Leaf (SInt 5)); ph w_BLOCKCOMMENT 5; (ks "y", sv "hello world")]);
+           ph w_LINECOMMENT 4 ]
+         [(2, of_string "// two"); (4, of_string "// four"); (7, of_string "// seven")]
+         [(0, nh_txt); (5, of_string "/* five
+   more */")] [] [].
+  Definition file0 : str := native_header ++ of_string "// seven
+a                             1;
+sub
+{
+    // two
+    b                         5;
+    /* five
+   more */
+    y                         'hello world';
+}
+// four
+".
+  Definition d : list (key * tree) := [(ks "a", sv "9"); (ks "sub", Dict [(ks "b", sv "6"); (ks "z", sv "007")]); (ks "c", sv "new one")].
+  Definition d2 : list (key * tree) := [(ks "c", sv "x"); (ks "sub", Dict [(ks "z", sv "1"); (ks "w", Dict [(ks "q", sv "true")])])].
+  Definition file1 : str := native_header ++ of_string "// seven
+a                             1;
+sub
+{
+    // two
+    b                         5;
+    /* five
+   more */
+    y                         'hello world';
+    z                         7;
+}
+// four
+c                             'new one';
+".
+  Definition file2 : str := native_header ++ of_string "// seven
+a                             1;
+sub
+{
+    // two
+    b                         5;
+    /* five
+   more */
+    y                         'hello world';
+    z                         7;
+    w
+    {
+        q                     true;
+    }
+}
+// four
+c                             'new one';
+".
+  (* the state DictReader.read returns for file0: comments renumbered in text order *)
+  Definition s1 : sdict :=
+    mkSD [ ph w_BLOCKCOMMENT 0; ph w_LINECOMMENT 0;
+           (ks "a", Leaf (SInt 1));
+           (ks "sub", Dict [ph w_LINECOMMENT 1; (ks "b", Leaf (SInt 5)); ph w_BLOCKCOMMENT 1; (ks "y", sv "hello world")]);
+           ph w_LINECOMMENT 2 ]
+         [(0, of_string "// seven"); (1, of_string "// two"); (2, of_string "// four")]
+         [(0, nh_txt); (1, of_string "/* five
+   more */")] [] [].
+  (* a file NOT written by the library: no header, several statements on a line, a comment behind a statement *)
+  Definition hand : str := of_string "// first comment
+a 1;
+b { x 2; // inner
+ /* blk
+ two */
+ y 'hello'; }
+".
+  Definition dh : list (key * tree) := [(ks "a", sv "5"); (ks "c", sv "7"); (ks "b", Dict [(ks "x", sv "9"); (ks "z", sv "3")])].
+  Definition hand1 : str := native_header ++ of_string "// first comment
+a                             1;
+b
+{
+    x                         2;
+    // inner
+    /* blk
+ two */
+    y                         hello;
+    z                         3;
+}
+c                             7;
+".
+End C16_cm.
+
+(* (1) The class of re-readable SDicts is closed under SDict.merge of a plain dict of the writer domain -- what
+   DictWriter.write does in append mode after reading the target.  The result is the SDict with the dict merged
+   first-wins (TreeSpec.merge_spec, the specification of SDict.merge) into its data and its comment tables as they are;
+   it is in the class again; its canonical form and its written document are the first-wins merge of the dict into those
+   of s: every comment entry where it was with its text, every ordinary leaf kept, every absent key path added behind
+   the existing entries of its dict level; the comment entries (level, name, text, in text order) are the same; the
+   ordinary data is the first-wins merge into the ordinary data.
+   Hypotheses, found by evaluating the model: m in the writer domain (wdom); merge_safe: no entry of s that m addresses
+   at the TOP level refers to its own key or spells its own key in the form of a placeholder -- SDict.merge replaces
+   such an entry (C16_commented_self_named_finding below).  The comment placeholder entries of s have this form by
+   construction, but m, having simple keys, never addresses them. *)
+Theorem C16_merge_keeps_class : forall s m, rereadable s = true -> wdom m = true -> merge_safe (sd_data s) m = true ->
+  let s' := mkSD (merge_spec (sd_data s) m) (sd_lc s) (sd_bc s) [] [] in
+  sd_merge s m None = s' /\ rereadable s' = true /\
+  canon s' = merge_spec (canon s) m /\ written_doc s' = merge_spec (written_doc s) m /\
+  cms (Dict (sd_data s')) = cms (Dict (sd_data s)) /\
+  cstrip (Dict (sd_data s')) = Dict (merge_spec (kvs_of (cstrip (Dict (sd_data s)))) m).
+Proof. exact rereadable_merge_closed. Qed.
+Print Assumptions C16_merge_keeps_class.
+
+Example C16_merge_keeps_class_nonvacuous :
+  let m := typed C16_cm.d in
+  rereadable C16_cm.s0 = true /\ wdom m = true /\ merge_safe (sd_data C16_cm.s0) m = true /\
+  (* the nested dict of s0 that m also has holds a line comment and a block comment *)
+  cms (Dict (sd_data C16_cm.s0)) =
+    [(0%nat, placeholder w_BLOCKCOMMENT 0, placeholder w_BLOCKCOMMENT 0); (0%nat, placeholder w_LINECOMMENT 7, placeholder w_LINECOMMENT 7);
+     (1%nat, placeholder w_LINECOMMENT 2, placeholder w_LINECOMMENT 2); (1%nat, placeholder w_BLOCKCOMMENT 5, placeholder w_BLOCKCOMMENT 5);
+     (0%nat, placeholder w_LINECOMMENT 4, placeholder w_LINECOMMENT 4)] /\
+  exists s', sd_merge C16_cm.s0 m None = s' /\ rereadable s' = true /\
+    cms (Dict (sd_data s')) = cms (Dict (sd_data C16_cm.s0)) /\
+    sd_data s' =
+      [ C16_cm.ph w_BLOCKCOMMENT 0; C16_cm.ph w_LINECOMMENT 7;
+        (C16_cm.ks "a", Leaf (SInt 1));
+        (C16_cm.ks "sub", Dict [C16_cm.ph w_LINECOMMENT 2; (C16_cm.ks "b", Leaf (SInt 5)); C16_cm.ph w_BLOCKCOMMENT 5;
+                                (C16_cm.ks "y", C16_cm.sv "hello world"); (C16_cm.ks "z", Leaf (SInt 7))]);
+        C16_cm.ph w_LINECOMMENT 4; (C16_cm.ks "c", C16_cm.sv "new one") ] /\
+    written_doc s' = merge_spec (written_doc C16_cm.s0) m.
+Proof.
+  intros m.
+  assert (H0 : rereadable C16_cm.s0 = true) by (vm_compute; reflexivity).
+  assert (H1 : wdom m = true) by (vm_compute; reflexivity).
+  assert (H2 : merge_safe (sd_data C16_cm.s0) m = true) by (vm_compute; reflexivity).
+  refine (conj H0 (conj H1 (conj H2 (conj _ _)))); [vm_compute; reflexivity|].
+  destruct (C16_merge_keeps_class C16_cm.s0 m H0 H1 H2) as (E1 & E2 & _ & E4 & E5 & _).
+  eexists. split; [exact E1|]. split; [exact E2|]. split; [exact E5|]. split; [vm_compute; reflexivity|exact E4].
+Qed.
+
+(* (2) One append onto an existing file whose text the library wrote from a re-readable (commented) SDict s.  With
+   s1 = the state DictReader.read returns for the file as it is (= number (-1) (written_doc s), C03_reread_partial) and
+   s2 = the state it returns after DictWriter.write d in append mode:
+   - the write succeeds;
+   - every key path already in the file keeps its value (the comment placeholder entries included);
+   - every key path of the new dict, as the reader classifies it, that was absent (addable) is added with its value;
+   - every comment of the file is still there: same tables (ids and exact texts), the same comment entries at the same
+     dict levels in the same order, and the canonical form of s2 is that of s1 with the classified dict merged
+     first-wins -- every comment entry at its place among the entries of its dict level.
+   Side conditions: the source dict in the domain of C16_overwrite_reads_back (pv_ok, wdom); merge_safe on the state
+   read back (see (1)); at most a million comments of each kind and quoted literals (six-digit placeholders). *)
+Theorem C16_append_onto_commented_file : forall path s d,
+  rereadable s = true -> pv_ok d = true -> wdom (typed d) = true ->
+  let W := written_doc s in let s1 := number (-1) W in
+  merge_safe (sd_data s1) (typed d) = true ->
+  (Z.of_nat (length (lc_list W)) <= 1000000)%Z -> (Z.of_nat (length (bc_list W)) <= 1000000)%Z ->
+  (Z.of_nat (length (lit_list W) + nq (Dict (typed d))) <= 1000000)%Z ->
+  exists c1 txt s2 c2,
+    read_plain [(norm_path path, FNative (to_string_sd s))] path true true (-1)%Z = Ok (s1, c1) /\
+    write_text false path (Some (to_string_sd s)) true d = Ok txt /\
+    read_plain [(norm_path path, FNative txt)] path true true (-1)%Z = Ok (s2, c2) /\
+    (forall p v, get_dpath (Dict (sd_data s1)) p = Some (Leaf v) -> get_dpath (Dict (sd_data s2)) p = Some (Leaf v)) /\
+    (forall p x, get_dpath (Dict (classified d)) p = Some x -> addable (Dict (sd_data s1)) p = true ->
+                 get_dpath (Dict (sd_data s2)) p = Some x) /\
+    sd_lc s2 = sd_lc s1 /\ sd_bc s2 = sd_bc s1 /\ cms (Dict (sd_data s2)) = cms (Dict (sd_data s1)) /\
+    canon s1 = cwv W /\ canon s2 = merge_spec (cwv W) (classified d) /\ cms (Dict (canon s2)) = cms (Dict W).
+Proof. exact append_onto_commented_paths. Qed.
+Print Assumptions C16_append_onto_commented_file.
+
+(* non-vacuity: file0 is the text of s0; d tries to change a (9) and sub.b (6): both keep their values; sub.z and c are
+   absent and are added; the three line comments and the two block comments are there with their texts *)
+Example C16_append_onto_commented_file_nonvacuous :
+  let a := [C16_cm.ks "a"] in let sub_b := [C16_cm.ks "sub"; C16_cm.ks "b"] in
+  let sub_z := [C16_cm.ks "sub"; C16_cm.ks "z"] in let c := [C16_cm.ks "c"] in
+  rereadable C16_cm.s0 = true /\ pv_ok C16_cm.d = true /\ wdom (typed C16_cm.d) = true /\
+  to_string_sd C16_cm.s0 = C16_cm.file0 /\ number (-1) (written_doc C16_cm.s0) = C16_cm.s1 /\
+  merge_safe (sd_data C16_cm.s1) (typed C16_cm.d) = true /\
+  get_dpath (Dict (classified C16_cm.d)) a = Some (Leaf (SInt 9)) /\ get_dpath (Dict (classified C16_cm.d)) sub_b = Some (Leaf (SInt 6)) /\
+  get_dpath (Dict (classified C16_cm.d)) sub_z = Some (Leaf (SInt 7)) /\ get_dpath (Dict (classified C16_cm.d)) c = Some (C16_cm.sv "new one") /\
+  addable (Dict (sd_data C16_cm.s1)) a = false /\ addable (Dict (sd_data C16_cm.s1)) sub_z = true /\ addable (Dict (sd_data C16_cm.s1)) c = true /\
+  exists c1 s2 c2,
+    read_plain [(norm_path C16_cm.pth, FNative C16_cm.file0)] C16_cm.pth true true (-1)%Z = Ok (C16_cm.s1, c1) /\
+    write_text false C16_cm.pth (Some C16_cm.file0) true C16_cm.d = Ok C16_cm.file1 /\
+    read_plain [(norm_path C16_cm.pth, FNative C16_cm.file1)] C16_cm.pth true true (-1)%Z = Ok (s2, c2) /\
+    get_dpath (Dict (sd_data s2)) a = Some (Leaf (SInt 1)) /\ get_dpath (Dict (sd_data s2)) sub_b = Some (Leaf (SInt 5)) /\
+    get_dpath (Dict (sd_data s2)) sub_z = Some (Leaf (SInt 7)) /\ get_dpath (Dict (sd_data s2)) c = Some (C16_cm.sv "new one") /\
+    sd_lc s2 = [(0, of_string "// seven"); (1, of_string "// two"); (2, of_string "// four")] /\
+    sd_bc s2 = [(0, nh_txt); (1, of_string "/* five
+   more */")] /\
+    cms (Dict (canon s2)) =
+      [(0%nat, w_BLOCKCOMMENT, nh_txt); (0%nat, w_LINECOMMENT, of_string "// seven"); (1%nat, w_LINECOMMENT, of_string "// two");
+       (1%nat, w_BLOCKCOMMENT, of_string "/* five
+   more */"); (0%nat, w_LINECOMMENT, of_string "// four")].
+Proof.
+  intros a sub_b sub_z c.
+  assert (H0 : rereadable C16_cm.s0 = true) by (vm_compute; reflexivity).
+  assert (H1 : pv_ok C16_cm.d = true) by (vm_compute; reflexivity).
+  assert (H2 : wdom (typed C16_cm.d) = true) by (vm_compute; reflexivity).
+  assert (Et : to_string_sd C16_cm.s0 = C16_cm.file0) by (vm_compute; reflexivity).
+  assert (Es : number (-1) (written_doc C16_cm.s0) = C16_cm.s1) by (vm_compute; reflexivity).
+  assert (H3 : merge_safe (sd_data C16_cm.s1) (typed C16_cm.d) = true) by (vm_compute; reflexivity).
+  assert (G1 : get_dpath (Dict (classified C16_cm.d)) sub_z = Some (Leaf (SInt 7))) by (vm_compute; reflexivity).
+  assert (G2 : get_dpath (Dict (classified C16_cm.d)) c = Some (C16_cm.sv "new one")) by (vm_compute; reflexivity).
+  assert (A1 : addable (Dict (sd_data C16_cm.s1)) sub_z = true) by (vm_compute; reflexivity).
+  assert (A2 : addable (Dict (sd_data C16_cm.s1)) c = true) by (vm_compute; reflexivity).
+  assert (K1 : get_dpath (Dict (sd_data C16_cm.s1)) a = Some (Leaf (SInt 1))) by (vm_compute; reflexivity).
+  assert (K2 : get_dpath (Dict (sd_data C16_cm.s1)) sub_b = Some (Leaf (SInt 5))) by (vm_compute; reflexivity).
+  refine (conj H0 (conj H1 (conj H2 (conj Et (conj Es (conj H3 _)))))).
+  split; [vm_compute; reflexivity|]. split; [vm_compute; reflexivity|]. split; [exact G1|]. split; [exact G2|].
+  split; [vm_compute; reflexivity|]. split; [exact A1|]. split; [exact A2|].
+  assert (H3' : merge_safe (sd_data (number (-1) (written_doc C16_cm.s0))) (typed C16_cm.d) = true) by (rewrite Es; exact H3).
+  destruct (C16_append_onto_commented_file C16_cm.pth C16_cm.s0 C16_cm.d H0 H1 H2 H3'
+              ltac:(vm_compute; discriminate) ltac:(vm_compute; discriminate) ltac:(vm_compute; discriminate))
+    as (c1 & txt & s2 & c2 & R1 & Wt & R2 & Hkeep & Hadd & L1 & L2 & _ & _ & _ & C3).
+  rewrite Es in R1, Hkeep, Hadd, L1, L2. rewrite Et in R1, Wt.
+  assert (Ew : write_text false C16_cm.pth (Some C16_cm.file0) true C16_cm.d = Ok C16_cm.file1) by (vm_compute; reflexivity).
+  rewrite Ew in Wt. injection Wt as <-.
+  exists c1, s2, c2. split; [exact R1|]. split; [exact Ew|]. split; [exact R2|].
+  split; [exact (Hkeep _ _ K1)|]. split; [exact (Hkeep _ _ K2)|]. split; [exact (Hadd _ _ G1 A1)|]. split; [exact (Hadd _ _ G2 A2)|].
+  split; [rewrite L1; reflexivity|]. split; [rewrite L2; reflexivity|]. rewrite C3. vm_compute. reflexivity.
+Qed.
+
+(* (2'), for the parse result of ANY text in the class -- a file not written by the library (other layout, no header,
+   comments behind statements): if the state S read back from the target is re-readable, the append succeeds, the text is
+   that of S with the (typed) dict merged into its data, and the state read back afterwards is the state of the document
+   merge (written_doc S) (typed d): its canonical form is the canonical form of S as the writer lays it out (block
+   comments first, the header in front, leaves read back) with the classified dict merged first-wins; the comments
+   (level, name, exact text, order) are those of written_doc S; the ordinary data is the ordinary data of S, leaves read
+   back, with the classified dict merged first-wins.  (Placeholder ids may change here: the header gets id 0.) *)
+Theorem C16_append_onto_commented_state : forall path txt0 S c0 d,
+  read_plain [(norm_path path, FNative txt0)] path true true (-1)%Z = Ok (S, c0) -> rereadable S = true ->
+  pv_ok d = true -> wdom (typed d) = true -> merge_safe (sd_data S) (typed d) = true ->
+  let W := written_doc S in
+  (Z.of_nat (length (lc_list W)) <= 1000000)%Z -> (Z.of_nat (length (bc_list W)) <= 1000000)%Z ->
+  (Z.of_nat (length (lit_list W) + nq (Dict (typed d))) <= 1000000)%Z ->
+  let S2 := number (-1) (merge_spec W (typed d)) in
+  exists txt c2,
+    write_text false path (Some txt0) true d = Ok txt /\
+    txt = to_string_sd (mkSD (merge_spec (sd_data S) (typed d)) (sd_lc S) (sd_bc S) [] []) /\
+    read_plain [(norm_path path, FNative txt)] path true true (-1)%Z = Ok (S2, c2) /\
+    rereadable S2 = true /\
+    canon S2 = merge_spec (cwv W) (classified d) /\
+    cms (Dict (canon S2)) = cms (Dict W) /\
+    cstrip (Dict (sd_data S2)) = Dict (merge_spec (reread_plain (kvs_of (cstrip (Dict (sd_data S))))) (classified d)).
+Proof. exact append_onto_rereadable_state. Qed.
+Print Assumptions C16_append_onto_commented_state.
+
+Example C16_append_onto_commented_state_nonvacuous :
+  exists S c0,
+    read_plain [(norm_path C16_cm.pth, FNative C16_cm.hand)] C16_cm.pth true true (-1)%Z = Ok (S, c0) /\ rereadable S = true /\
+    pv_ok C16_cm.dh = true /\ wdom (typed C16_cm.dh) = true /\ merge_safe (sd_data S) (typed C16_cm.dh) = true /\
+    has_header (csort (canon S)) = false /\
+    cstrip (Dict (sd_data S)) = Dict [(C16_cm.ks "a", Leaf (SInt 1)); (C16_cm.ks "b", Dict [(C16_cm.ks "x", Leaf (SInt 2)); (C16_cm.ks "y", C16_cm.sv "hello")])] /\
+    exists S2 c2,
+      write_text false C16_cm.pth (Some C16_cm.hand) true C16_cm.dh = Ok C16_cm.hand1 /\
+      read_plain [(norm_path C16_cm.pth, FNative C16_cm.hand1)] C16_cm.pth true true (-1)%Z = Ok (S2, c2) /\
+      rereadable S2 = true /\
+      cstrip (Dict (sd_data S2)) =
+        Dict [(C16_cm.ks "a", Leaf (SInt 1));
+              (C16_cm.ks "b", Dict [(C16_cm.ks "x", Leaf (SInt 2)); (C16_cm.ks "y", C16_cm.sv "hello"); (C16_cm.ks "z", Leaf (SInt 3))]);
+              (C16_cm.ks "c", Leaf (SInt 7))] /\
+      cms (Dict (canon S2)) =
+        [(0%nat, w_BLOCKCOMMENT, nh_txt); (0%nat, w_LINECOMMENT, of_string "// first comment"); (1%nat, w_LINECOMMENT, of_string "// inner");
+         (1%nat, w_BLOCKCOMMENT, of_string "/* blk
+ two */")].
+Proof.
+  set (r := read_plain [(norm_path C16_cm.pth, FNative C16_cm.hand)] C16_cm.pth true true (-1)%Z).
+  set (S := match r with Ok sc => fst sc | Raise _ => sd_empty end).
+  set (c0 := match r with Ok sc => snd sc | Raise _ => 0%Z end).
+  assert (Er : r = Ok (S, c0)) by (vm_compute; reflexivity).
+  assert (H0 : rereadable S = true) by (vm_compute; reflexivity).
+  assert (H1 : pv_ok C16_cm.dh = true) by (vm_compute; reflexivity).
+  assert (H2 : wdom (typed C16_cm.dh) = true) by (vm_compute; reflexivity).
+  assert (H3 : merge_safe (sd_data S) (typed C16_cm.dh) = true) by (vm_compute; reflexivity).
+  exists S, c0. refine (conj Er (conj H0 (conj H1 (conj H2 (conj H3 _))))).
+  split; [vm_compute; reflexivity|]. split; [vm_compute; reflexivity|].
+  destruct (C16_append_onto_commented_state C16_cm.pth C16_cm.hand S c0 C16_cm.dh Er H0 H1 H2 H3
+              ltac:(vm_compute; discriminate) ltac:(vm_compute; discriminate) ltac:(vm_compute; discriminate))
+    as (txt & c2 & Wt & _ & R2 & Q & _ & C2 & D2).
+  assert (Ew : write_text false C16_cm.pth (Some C16_cm.hand) true C16_cm.dh = Ok C16_cm.hand1) by (vm_compute; reflexivity).
+  rewrite Ew in Wt. injection Wt as <-.
+  eexists. exists c2. split; [exact Ew|]. split; [exact R2|]. split; [exact Q|]. split.
+  - rewrite D2. vm_compute. reflexivity.
+  - rewrite C2. vm_compute. reflexivity.
+Qed.
+
+(* (2), sequence version: any number of appends onto an existing file whose text the library wrote from a re-readable
+   (commented) SDict s.  Every write succeeds (the target is there after each step); the state read back after the last
+   one is the state s1 read from the file before, with the dicts -- as the reader classifies them -- merged first-wins,
+   one after the other, into its data (fold of TreeSpec.merge_spec, as in C16_append_sequence); the comment tables are
+   those of s1 and the comment entries are where they were; it is re-readable again (the induction invariant).
+   Proved by induction over the list, the invariant being "the target is read back as the state of a canonical document
+   with a marked header, block comments first" (generalises the two shapes st_plain / st_hdr of C16_append_sequence).
+   Side conditions: per dict writable_src (as in C16_append_sequence); ord_nsn: no ORDINARY top-level entry of s1 is
+   self-named (closed under the merge; implies merge_safe at every step); at most a million comments of each kind, and
+   quoted literals in all. *)
+Theorem C16_append_sequence_onto_commented : forall path w s ds,
+  rereadable s = true -> w_get path w = Some (to_string_sd s) ->
+  let W := written_doc s in let s1 := number (-1) W in
+  ord_nsn (sd_data s1) = true -> forallb writable_src ds = true ->
+  (Z.of_nat (length (lc_list W)) <= 1000000)%Z -> (Z.of_nat (length (bc_list W)) <= 1000000)%Z ->
+  (Z.of_nat (length (lit_list W) + nq_total ds) <= 1000000)%Z ->
+  let sN := mkSD (fold_left merge_spec (map classified ds) (sd_data s1)) (sd_lc s1) (sd_bc s1) [] [] in
+  exists c1 txt cN,
+    read_plain [(norm_path path, FNative (to_string_sd s))] path true true (-1)%Z = Ok (s1, c1) /\
+    w_get path (writer_run false w path (appends ds)) = Some txt /\
+    read_plain [(norm_path path, FNative txt)] path true true (-1)%Z = Ok (sN, cN) /\
+    rereadable sN = true /\
+    (forall p v, get_dpath (Dict (sd_data s1)) p = Some (Leaf v) -> get_dpath (Dict (sd_data sN)) p = Some (Leaf v)) /\
+    cms (Dict (sd_data sN)) = cms (Dict (sd_data s1)).
+Proof. exact append_sequence_onto_commented. Qed.
+Print Assumptions C16_append_sequence_onto_commented.
+
+(* non-vacuity: d, then d2 onto file0: c of d2 (x) does not replace the c added by d; sub.z of d2 (1) does not replace 7;
+   sub.w.q is added; the comments stay *)
+Example C16_append_sequence_onto_commented_nonvacuous :
+  let ds := [C16_cm.d; C16_cm.d2] in let w := [(C16_cm.pth, C16_cm.file0)] in
+  rereadable C16_cm.s0 = true /\ to_string_sd C16_cm.s0 = C16_cm.file0 /\ number (-1) (written_doc C16_cm.s0) = C16_cm.s1 /\
+  ord_nsn (sd_data C16_cm.s1) = true /\ forallb writable_src ds = true /\
+  exists cN,
+    w_get C16_cm.pth (writer_run false w C16_cm.pth (appends ds)) = Some C16_cm.file2 /\
+    read_plain [(norm_path C16_cm.pth, FNative C16_cm.file2)] C16_cm.pth true true (-1)%Z =
+      Ok (mkSD [ C16_cm.ph w_BLOCKCOMMENT 0; C16_cm.ph w_LINECOMMENT 0;
+                 (C16_cm.ks "a", Leaf (SInt 1));
+                 (C16_cm.ks "sub", Dict [C16_cm.ph w_LINECOMMENT 1; (C16_cm.ks "b", Leaf (SInt 5)); C16_cm.ph w_BLOCKCOMMENT 1;
+                                         (C16_cm.ks "y", C16_cm.sv "hello world"); (C16_cm.ks "z", Leaf (SInt 7));
+                                         (C16_cm.ks "w", Dict [(C16_cm.ks "q", Leaf (SBool true))])]);
+                 C16_cm.ph w_LINECOMMENT 2; (C16_cm.ks "c", C16_cm.sv "new one") ]
+               (sd_lc C16_cm.s1) (sd_bc C16_cm.s1) [] [], cN).
+Proof.
+  intros ds w.
+  assert (H0 : rereadable C16_cm.s0 = true) by (vm_compute; reflexivity).
+  assert (Et : to_string_sd C16_cm.s0 = C16_cm.file0) by (vm_compute; reflexivity).
+  assert (Es : number (-1) (written_doc C16_cm.s0) = C16_cm.s1) by (vm_compute; reflexivity).
+  assert (H1 : ord_nsn (sd_data C16_cm.s1) = true) by (vm_compute; reflexivity).
+  assert (H2 : forallb writable_src ds = true) by (vm_compute; reflexivity).
+  refine (conj H0 (conj Et (conj Es (conj H1 (conj H2 _))))).
+  assert (Hg : w_get C16_cm.pth w = Some (to_string_sd C16_cm.s0)) by (rewrite Et; vm_compute; reflexivity).
+  assert (H1' : ord_nsn (sd_data (number (-1) (written_doc C16_cm.s0))) = true) by (rewrite Es; exact H1).
+  destruct (C16_append_sequence_onto_commented C16_cm.pth w C16_cm.s0 ds H0 Hg H1' H2
+              ltac:(vm_compute; discriminate) ltac:(vm_compute; discriminate) ltac:(vm_compute; discriminate))
+    as (c1 & txt & cN & _ & G & R & _).
+  assert (Ew : w_get C16_cm.pth (writer_run false w C16_cm.pth (appends ds)) = Some C16_cm.file2) by (vm_compute; reflexivity).
+  rewrite Ew in G. injection G as <-. rewrite Es in R.
+  exists cN. split; [exact Ew|]. rewrite R. f_equal.
+Qed.
+
+(* FINDING (forces merge_safe / ord_nsn): an ORDINARY top-level entry of the commented file whose value spells its own
+   key, the key having the shape of a placeholder, does not keep its value in append mode (as in C16_self_named_finding
+   for files without comments); the comment and the equally self-named entry k are kept.  Same behaviour of the library
+   (checked: the file "// note / AB000001 AB000001; / k k;", then DictWriter.write({'AB000001': 5, 'k': 6}, f, mode='a'):
+   the file holds the header, // note, AB000001 5; k k;). *)
+Example C16_commented_self_named_finding :
+  let txt0 := of_string "// note
+AB000001 AB000001;
+k k;
+" in
+  let d' := [(C16_cm.ks "AB000001", C16_cm.sv "5"); (C16_cm.ks "k", C16_cm.sv "6")] in
+  exists S c0 txt S2 c2,
+    read_plain [(norm_path C16_cm.pth, FNative txt0)] C16_cm.pth true true (-1)%Z = Ok (S, c0) /\ rereadable S = true /\
+    pv_ok d' = true /\ wdom (typed d') = true /\ merge_safe (sd_data S) (typed d') = false /\
+    get_dpath (Dict (sd_data S)) [C16_cm.ks "AB000001"] = Some (C16_cm.sv "AB000001") /\
+    write_text false C16_cm.pth (Some txt0) true d' = Ok txt /\
+    read_plain [(norm_path C16_cm.pth, FNative txt)] C16_cm.pth true true (-1)%Z = Ok (S2, c2) /\
+    get_dpath (Dict (sd_data S2)) [C16_cm.ks "AB000001"] = Some (Leaf (SInt 5)) /\
+    get_dpath (Dict (sd_data S2)) [C16_cm.ks "k"] = Some (C16_cm.sv "k") /\
+    sd_lc S2 = [(0, of_string "// note")].
+Proof.
+  intros txt0 d'.
+  set (r := read_plain [(norm_path C16_cm.pth, FNative txt0)] C16_cm.pth true true (-1)%Z).
+  set (txt := match write_text false C16_cm.pth (Some txt0) true d' with Ok t => t | Raise _ => [] end).
+  set (r2 := read_plain [(norm_path C16_cm.pth, FNative txt)] C16_cm.pth true true (-1)%Z).
+  exists (match r with Ok sc => fst sc | Raise _ => sd_empty end), (match r with Ok sc => snd sc | Raise _ => 0%Z end), txt,
+         (match r2 with Ok sc => fst sc | Raise _ => sd_empty end), (match r2 with Ok sc => snd sc | Raise _ => 0%Z end).
+  split; [vm_compute; reflexivity|]. split; [vm_compute; reflexivity|]. split; [vm_compute; reflexivity|].
+  split; [vm_compute; reflexivity|]. split; [vm_compute; reflexivity|]. split; [vm_compute; reflexivity|].
+  split; [vm_compute; reflexivity|]. split; [vm_compute; reflexivity|]. split; [vm_compute; reflexivity|].
+  split; vm_compute; reflexivity.
+Qed.
